@@ -105,5 +105,8 @@ func init() {
 			r := rng.Fork()
 			walkCase(o, r, "C08", docOpts{collisions: false, abstract: true, maxDepth: 4, fewDirs: true}, nil)
 		}
+		for i := 0; i < n/2; i++ {
+			c08Binding(o, rng.Fork())
+		}
 	}
 }
